@@ -51,6 +51,8 @@ def fresh_settings(rng: Any, fired: list[tuple[int, int]] | None = None) -> dict
     names = [n for n in ('solver', 'solver_throw', 'solver_options', 'solver_callback') if rng.integers(2)]
     if not names:
         names = ['solver']
+    if rng.integers(4) == 0:
+        names = ['solver_callback']      # blocks that override the callback only
     i = uid()
     for n in names:
         if n == 'solver':
@@ -93,6 +95,11 @@ def _d(v: Any) -> str:
     return repr(v)[:60]
 
 
+import equinox as _eqx
+
+_shared_jit = _eqx.filter_jit(lambda o, v: o.mv(v))
+
+
 def tiny_operator(composite: bool = False) -> Any:
     d = DiagonalOperator(jnp.asarray([2.0, 4.0], dtype=jnp.float32), in_structure=jax.ShapeDtypeStruct((2,), jnp.float32))
     if composite:
@@ -112,8 +119,28 @@ def run_history(rng: Any, mon: str, max_depth: int, length: int, apply_budget: l
     Inverses created at enclosing levels stay usable (reduced / applied) inside the nested blocks."""
     n = int(rng.integers(1, length + 1))
     inverses: list[tuple[Any, dict[str, Any]]] = list(outer or [])
+    prebuilt: list[tuple[Config, dict[str, Any]]] = []
     for _ in range(n):
-        ev = gen.pick(rng, ['enter', 'enter', 'read', 'create', 'apply', 'raise-inside', 'reduce-inverse'])
+        ev = gen.pick(rng, ['enter', 'enter', 'read', 'create', 'apply', 'raise-inside', 'reduce-inverse', 'prebuild', 'enter-prebuilt'])
+        if ev == 'prebuild':
+            # a Config object built now and entered later: its settings are those of the construction point
+            kw = fresh_settings(rng, fired)
+            prebuilt.append((Config(**kw), {**stack[-1], **kw}))
+            trace.append(f'PREBUILD({",".join(sorted(kw))})')
+            continue
+        if ev == 'enter-prebuilt':
+            if not prebuilt or depth >= max_depth:
+                continue
+            cfg, top_at_construction = prebuilt.pop(int(rng.integers(len(prebuilt))))
+            trace.append(f'ENTER-PREBUILT{depth + 1}')
+            with cfg:
+                stack.append(top_at_construction)
+                compare(mon, 'enter-prebuilt', stack[-1], trace)
+                run_history(rng, mon, max_depth, max(1, length // 2), apply_budget, trace, stack, fired, depth + 1, inverses)
+                trace.append(f'EXIT{depth + 1}')
+            stack.pop()
+            compare(mon, 'exit-prebuilt', stack[-1], trace)
+            continue
         if ev in ('enter', 'raise-inside') and depth < max_depth:
             kw = fresh_settings(rng, fired)
             new_top = {**stack[-1], **kw}
@@ -169,6 +196,27 @@ def run_history(rng: Any, mon: str, max_depth: int, length: int, apply_budget: l
                                       history=' '.join(trace[-14:]))
                         break
                 inverses[k] = (o, at_creation)
+        elif ev == 'apply' and inverses and apply_budget[0] > 0 and rng.integers(3) == 0 and len(inverses) >= 2:
+            # two inverses through ONE shared filtering jit (the operator is an argument: its captured configuration is
+            # part of the static data the jit cache is keyed on)
+            cands = [(i, c) for i, c in inverses if hasattr(c['solver_callback'], 'uid')]
+            if len(cands) < 2:
+                continue
+            apply_budget[0] -= 1
+            trace.append('APPLY-SHARED-JIT')
+            for inv, at_creation in (cands[0], cands[-1]):
+                cb = at_creation['solver_callback']
+                before = len(fired)
+                _shared_jit(inv, jnp.asarray([2.0, 4.0], dtype=jnp.float32))
+                jax.effects_barrier()
+                LOG.evaluated('C19.apply')
+                new = fired[before:]
+                if not new or any(i != cb.uid for i, _ in new):
+                    LOG.violation('C19', 'C19.apply', 'apply-inverse/shared-jit/wrong-callback',
+                                  f'callback(s) {[i for i, _ in new]} fired, the inverse captured callback#{cb.uid}', history=' '.join(trace[-14:]))
+                elif any(ms != at_creation['solver'].max_steps for _, ms in new):
+                    LOG.violation('C19', 'C19.apply', 'apply-inverse/shared-jit/wrong-solver',
+                                  f'max_steps {[ms for _, ms in new]} used, captured {at_creation["solver"].max_steps}', history=' '.join(trace[-14:]))
         elif ev == 'apply' and inverses and apply_budget[0] > 0:
             inv, at_creation = inverses[int(rng.integers(len(inverses)))]
             cb = at_creation['solver_callback']
